@@ -273,6 +273,9 @@ def jsonOfEvents (evs : List Event) : List (String × Json) :=
   let reqs := evs.filterMap fun
     | .req op node => if declared node == 0 then Option.none else some (Json.arr #[.str op, toJson node])
     | _ => Option.none
+  let logreq := (evs.filter fun
+    | .req op _ => op == "log"
+    | _ => false).length
   let reads := (evs.filterMap fun
     | .read k => some k
     | .readAll => some "*"
@@ -282,7 +285,7 @@ def jsonOfEvents (evs : List Event) : List (String × Json) :=
     | _ => Option.none
   [("calls", .arr calls.toArray), ("cache", .arr cache.toArray), ("log", .arr logs.toArray),
    ("req", .arr reqs.toArray), ("reads", .arr ((sortStrings reads).map Json.str).toArray),
-   ("tchk", .arr tchk.toArray)]
+   ("tchk", .arr tchk.toArray), ("logreq", toJson logreq)]
 
 def opOfString : String → Option Op
   | "evaluate" => some .evaluate
